@@ -1015,10 +1015,13 @@ def ref_path(wi, coin, change, index, account=0, wt=None):
     return "m/%d'/%d'/%d'/%d/%d" % (PURPOSE[wt], coin, account, change, index)
 
 
-def ref_ms_paths(wi, coin, change, index, cosigner_index=0):
+def ref_ms_paths(wi, coin, change, index, cosigner_index=0, wt=None):
     """(account path, relative path) for a multisig cosigner key."""
     if wi.wt == 'legacy':
         return "m/45'", "%d/%d/%d" % (cosigner_index, change, index)
+    if wt and wt != wi.wt and wt != 'legacy':
+        # BIP48: the other script type of the same wallet
+        return MS_ACCOUNT_PATH[wt] % coin, "%d/%d" % (change, index)
     return wi.ref['acc_path'], "%d/%d" % (change, index)
 
 
@@ -1039,7 +1042,7 @@ def ref_address(wi, network, coin, change, index, account=0, wt=None, cosigner_i
         node = wi.ref['master'].derive(path)
         res = {'address': ref_pub_to_address(node.pub, wt, network), 'pub': node.pub, 'priv': node.priv, 'path': path}
     else:
-        acc, rel = ref_ms_paths(wi, coin, change, index, cosigner_index)
+        acc, rel = ref_ms_paths(wi, coin, change, index, cosigner_index, wt)
         pubs = []
         for mk in wi.ref['masters']:
             pubs.append(mk.derive(acc).derive(rel).pub)
